@@ -153,6 +153,10 @@ impl Sched {
     ) -> std::sync::MutexGuard<'a, State> {
         loop {
             if st.aborted.is_some() {
+                if std::thread::panicking() {
+                    // already unwinding (a destructor reached a scheduling point): run freely
+                    return st;
+                }
                 drop(st);
                 std::panic::resume_unwind(Box::new(SimAbort));
             }
@@ -282,6 +286,9 @@ impl Sched {
         let mut st = self.st.lock().unwrap();
         if st.aborted.is_some() {
             drop(st);
+            if std::thread::panicking() {
+                return;
+            }
             std::panic::resume_unwind(Box::new(SimAbort));
         }
         st.steps += 1;
@@ -290,6 +297,9 @@ impl Sched {
             st.aborted = Some(Outcome::StepCap);
             self.cv.notify_all();
             drop(st);
+            if std::thread::panicking() {
+                return;
+            }
             std::panic::resume_unwind(Box::new(SimAbort));
         }
         self.pick_next(&mut st, Some(tid));
@@ -327,6 +337,10 @@ impl Sched {
         let mut st = self.st.lock().unwrap();
         if st.aborted.is_some() {
             drop(st);
+            if std::thread::panicking() {
+                std::thread::yield_now();
+                return;
+            }
             std::panic::resume_unwind(Box::new(SimAbort));
         }
         st.addr_name.entry(addr).or_insert(name);
